@@ -38,7 +38,7 @@ M = [
  # --- C05
  ('m05_idbase', 'C05', 'data.py', "id_offset+10*ind+sub_layers_id", "id_offset+ind+sub_layers_id"),
  ('m05_fill_slice', 'C05', 'data.py', "self.data.loc[to_fill, 'layer_id'] = self.data.loc[to_fill, 'group_id']", "self.data.loc[to_fill, 'layer_id'] = self.data.loc[to_fill, 'slice_id']"),
- ('m08_119', 'C08', 'layer.py', "            abics[n_id] = max(abics) + 1  # The larger the abics score, the worst the fit.", "            pass"),
+ ('m08_119', 'C08', 'layer.py', "            abics[n_id] = np.inf  # The larger the abics score, the worst the fit.", "            pass"),
  ('m05_nslices', 'C05', 'data.py', "return len(np.unique(self.data['layer_id'][self.data['layer_id'] >= 0]))", "return len(np.unique(self.data['layer_id'][self.data['layer_id'] > 0]))"),
  # --- C06
  ('m06_once', 'C06', 'data.py', "            lt_min_sep_indexer = (base_height_diffs < min_seps_grp).fillna(False)\n\n    @log_func_call(logger)\n    def find_groups", "            lt_min_sep_indexer = (base_height_diffs < min_seps_grp).fillna(False)\n            break\n\n    @log_func_call(logger)\n    def find_groups"),
@@ -75,10 +75,11 @@ M = [
  ('m12_set_replace', 'C12', 'core.py', "    dynamic.AMPYCLOUD_PRMS = utils.adjust_nested_dict(dynamic.AMPYCLOUD_PRMS, user_prms)", "    dynamic.AMPYCLOUD_PRMS.update(user_prms)"),
  # --- C13
  ('m13_liveglobal', 'C13', 'data.py', "min_sep = self.prms['MIN_SEP_VALS'][min_sep_val_id]", "min_sep = dynamic.AMPYCLOUD_PRMS['MIN_SEP_VALS'][min(min_sep_val_id, len(dynamic.AMPYCLOUD_PRMS['MIN_SEP_VALS']) - 1)] if isinstance(dynamic.AMPYCLOUD_PRMS['MIN_SEP_VALS'], list) else self.prms['MIN_SEP_VALS'][min_sep_val_id]"),
- ('m13_tmpseed', 'C13', 'layer.py', "    for n_val in ncomp:\n        models[n_val] = GaussianMixture(n_val, covariance_type='spherical',\n                                        random_state=random_seed).fit(vals)", "    for n_val in ncomp:\n        with utils.tmp_seed(random_seed):\n            models[n_val] = GaussianMixture(n_val, covariance_type='spherical',\n                                            random_state=None).fit(vals)"),
+ ('m13_tmpseed', 'C13', 'layer.py', "            models[n_val] = GaussianMixture(n_val, covariance_type='spherical',\n                                            random_state=random_seed).fit(vals)", "            with utils.tmp_seed(random_seed):\n                models[n_val] = GaussianMixture(n_val, covariance_type='spherical',\n                                                random_state=None).fit(vals)"),
  # --- C14
  ('m14_noguard_layers', 'C14', 'data.py', "        if self._groups is None:\n            raise AmpycloudError('Grouping not yet done.", "        if False:\n            raise AmpycloudError('Grouping not yet done."),
- ('m14_noreset_layerid', 'C14', 'data.py', "        self.data.loc[:, 'layer_id'] = None\n", "        if 'layer_id' not in self.data.columns:\n            self.data.loc[:, 'layer_id'] = None\n"),
+ # m14_noreset_layerid (layer_id column not reset on a repeated find_layers) is EQUIVALENT under every permitted sequence: the same ids are rewritten
+ ('m14_noreset_layerid_EQUIV', 'C14', 'data.py', "        self.data.loc[:, 'layer_id'] = None\n", "        if 'layer_id' not in self.data.columns:\n            self.data.loc[:, 'layer_id'] = None\n"),
  ('m14_guard_moved', 'C14', 'data.py', "        if self._layers is not None:\n            raise AmpycloudError('Layering already done. If you look for groups now", "        if False:\n            raise AmpycloudError('Layering already done. If you look for groups now"),
  # --- C15
  ('m15_merge_dt', 'C15', 'utils/utils.py', "merged = dets.merge(nodets, how='inner', on=['dt', 'ceilo'])", "merged = dets.merge(nodets, how='inner', on=['dt'])"),
@@ -95,7 +96,8 @@ M = [
  # --- C19
  ('m19_offset', 'C19', 'scaler.py', "            cont_corr = np.sum(cont_corr[:sid])", "            cont_corr = np.sum(cont_corr[:max(sid - 1, 0)]) if sid > 1 else np.sum(cont_corr[:sid])"),
  ('m19_nanmax', 'C19', 'scaler.py', "    if max_val is None:\n        max_val = np.nanmax(vals)", "    if max_val is None:\n        max_val = np.max(vals)"),
- ('m19_minrange_asym', 'C19', 'scaler.py', "return (val_mid - min_range/2, val_mid + min_range/2)", "return (np.nanmin(vals), np.nanmin(vals) + min_range)"),
+ # m19_minrange_asym keeps every clause of C19 as stated (output in [0,1], span == range/min_range, order, undo): not a violation
+ ('m19_minrange_asym_NOTAVIOLATION', 'C19', 'scaler.py', "return (val_mid - min_range/2, val_mid + min_range/2)", "return (np.nanmin(vals), np.nanmin(vals) + min_range)"),
  ('m19_undo_edges', 'C19', 'scaler.py', "            out[cond] = (vals[cond] - cont_corr) * sval + offsets[sid]", "            out[cond] = (vals[cond] - cont_corr) * scales[0] + offsets[sid]"),
  # --- C20
  ('m20_styleuse', 'C20', 'plots/tools.py', "        with plt.style.context(prms):\n\n            out = func(*args, **kwargs)\n            return out", "        plt.style.use(prms)\n        out = func(*args, **kwargs)\n        return out"),
